@@ -49,7 +49,7 @@ def _issue(cli, form):
     return cli.request('GET', p, stream=False)
 
 
-def impl_nodes_used(n, outcomes, kinds=None, mutate=None, forms=None):
+def impl_nodes_used(n, outcomes, kinds=None, mutate=None, forms=None, twins=None):
     """outcomes: 1 = the node answers, 0 = the request fails; kinds (same length, optional): which exception a failing request
     raises — the property says "regardless of failures", so the way a request fails must not matter"""
     import requests
@@ -59,6 +59,8 @@ def impl_nodes_used(n, outcomes, kinds=None, mutate=None, forms=None):
             lambda: RuntimeError('bug')]
 
     uris = [f'http://node{i}' for i in range(n)]      # the caller's own list (for a `.pool` shell: a module-level list)
+    for a, b in twins or []:                           # the same address listed twice (weighting a node): still n positions to rotate over
+        uris[b] = uris[a]
     cli = RpcMultiNode(uris)
     used = []
     it = iter(zip(outcomes, kinds or [0] * len(outcomes)))
@@ -120,7 +122,13 @@ def run(ctx):
         # how each request is issued: plain request() for half of the cases, otherwise drawn per request from the public verbs and the
         # keyword arguments callers pass through (stream=True is what the /monitor wrappers use)
         forms = None if idx % 2 == 0 else [ctx.rng.randrange(len(FORMS)) if ctx.rng.random() < 0.6 else 0 for _ in os_]
-        used = impl_nodes_used(n, os_, kinds, mutate, forms)
+        # every seventh case with n >= 2: one address is listed at two (or three) positions of the pool
+        twins = None
+        if idx % 7 == 4 and n >= 2:
+            a = ctx.rng.randrange(n - 1)
+            twins = [(a, b) for b in ctx.rng.sample(range(a + 1, n), ctx.rng.choice([1, 1, 2]) if n - a - 1 >= 2 else 1)]
+            ctx.count('pool_with_repeated_address', f'n={n}')
+        used = impl_nodes_used(n, os_, kinds, mutate, forms, twins)
         for f in forms or []:
             ctx.count('request_form', FORMS[f])
         if mutate:
@@ -153,11 +161,13 @@ def run(ctx):
                     key = f'rotation-depends-on-request-form: {FORMS[culprit]}'
                 else:
                     key += ' forms=' + ','.join(str(x) for x in forms[:k])
+            if twins:
+                key += ' repeated-address-at-positions=' + ','.join(f'{a}={b}' for a, b in twins)
             if mutate and mutate[0] < k:
                 key += f" caller's-uri-list-{'grown' if mutate[1] > 0 else 'shrunk'}-before-request-{mutate[0]}" 
             how = f' issued as {[FORMS[x] for x in forms[:k]]}' if forms and any(forms[:k]) else ''
             ctx.violation(key, f'n={n} outcomes={fk}{how}: nodes used {used[:k]} expected {want[:k]}',
-                          {'n': n, 'outcomes': os_[:k], 'failure_kinds': fk, 'forms': [FORMS[x] for x in (forms or [])[:k]], 'used': used[:k], 'expected': want[:k]})
+                          {'n': n, 'outcomes': os_[:k], 'failure_kinds': fk, 'forms': [FORMS[x] for x in (forms or [])[:k]], 'twins': twins, 'used': used[:k], 'expected': want[:k]})
         if model is not None:
             got = ' '.join(map(str, used))
             if got != model[idx]:
